@@ -238,19 +238,21 @@ def attributes_ob(v):
     else:
         prop.uncertainty = v.pick("uncertainty", [None, 0, 0.0, 0.5, 2])
         prop.name = v.str("pname", 1, ALPHABET)
-    export_import(v, [doc], subclassing, custom, maybe_twice=False)
+    # a second export through the same writer only where the writer keeps state of its own (sub-class declarations)
+    export_import(v, [doc], subclassing, custom, maybe_twice=(focus == 2))
 
 
 @obligation("C10", "values", shards=8, budget={"quick": 600, "thorough": 1800},
             expect=["imported", "empty", "multi"],
-            bounds="one Property per value class (one per shard: str-like, int, float, boolean, date, time, datetime, 2-tuple) with 0..2 (quick) / 0..3 values; strings one "
+            bounds="one Property per value class (one per shard: str-like, int, float, boolean, date, time, datetime, 2-tuple) with 0..2 values (thorough: 0..3 for the pooled classes); strings one "
                    "character over {a, \", newline, e-acute, blank}, ints from {-1, 0, 2, 10**20}, floats from {0.1, 1/3, 1e300, -0.0, 2.5}")
 def values_ob(v):
     """Values form an ordered rdf:Seq of typed literals and come back with the same types in the same order."""
     import odml
     _mute(v)
     vclass = G.VCLASSES[v.shard % len(G.VCLASSES)]
-    count = v.choice("count", 3 if v.tier == "quick" else 4)
+    # three values only where the values come from pools (a third symbolic string multiplies the rdflib round trips by six)
+    count = v.choice("count", 3 if (v.tier == "quick" or vclass == "str") else 4)
     if vclass == "int":
         dtype, vals = "int", [v.pick("p.v%d" % i, [-1, 0, 2, 10 ** 20]) for i in range(count)]
     elif vclass == "float":
